@@ -40,7 +40,18 @@ class C04(Prop):
                   "model is run against the real functions on every case")
     level_note = ("Lean kernel + standard axioms; hand-written model (D2 repaired: buckets flattened); exactness of "
                   "'False' rests on differential testing against the verified brute-force decider")
-    theorems = []
+    theorems = [
+        "PrefVerif.C04.mem_perms",
+        "PrefVerif.C04.scSeq_iff",
+        "PrefVerif.C04.bruteSC_iff",
+        "PrefVerif.C04.scWitness_iff",
+        "PrefVerif.C04.isOrderedSC_iff",
+        "PrefVerif.C04.isSC_sound",
+        "PrefVerif.C04.isSC_true_imp_SC",
+        "PrefVerif.C04.conflictSets_iff",
+        "PrefVerif.C04.conflictSets_sound",
+        "PrefVerif.C04.conflictSets_empty",
+    ]
     rule = ("exhaustive: all sets of <= 3 orders over 3 alternatives; random profiles m<=6 against brute force "
             "(n<=6); planted single-crossing walks and one-swap perturbations up to m=12, n=16 with shuffled storage, "
             "n<m and n>=m in equal shares; non-trivial = >= 3 orders")
